@@ -35,6 +35,14 @@ import (
 // Logged per block: the candidate accounts as account.NewManager(hash) presents them, GetCandidatesTop(hash) on both
 // nodes, the candidates touched by the block's change logs, block.DeputyNodes, whether stabilisation panicked, and the
 // term the second node serves for the next term before and after its restart.  The driver never judges.
+// Every scenario has a SCALE (1, 33, 65 or 16385) by which all funding, deposit and transfer amounts are multiplied, so
+// that the totals of the candidates move across 2^7, 2^8 and 2^16 between consecutive stable blocks (the persisted
+// candidate record changes its length there; 2^24 votes and more would need more LEMO than exist).  The scales are
+// 1 modulo 4: all amounts are multiples of 50 LEMO, so every balance keeps its remainder modulo the 200 LEMO a vote
+// costs and a fee moves a voter across a vote boundary exactly where it does at scale 1 (the tally defect of re-votes
+// after such a move is C11's finding Dev_VoteUsesPreTxBalance, not C10's subject).  For the same reason no balance is
+// ever a multiple of 200 LEMO: voters hold 250 + 200i, candidates' accounts 550 + 100i minus a deposit of 100j (times the
+// scale), transfers are multiples of 200 - so the fee of a vote transaction never costs the voter a vote.
 
 const (
 	nodeDeputies = 3
@@ -76,6 +84,7 @@ type nodeSys struct {
 	nut     *node.Node
 	blocks  map[int]*types.Block
 	ntx     int
+	scale   int64 // amounts of this scenario are multiplied by it
 }
 
 func (s *nodeSys) candOf(a common.Address) int {
@@ -212,7 +221,7 @@ func (s *nodeSys) randomTxs(rng *rand.Rand, n int, reg []int, desc *[]string) ty
 				continue
 			}
 			moved[s.extra[j]] = true
-			dep := int64(100 * (1 + rng.Intn(4)))
+			dep := int64(100*(1+rng.Intn(4))) * s.scale
 			txs = append(txs, s.tx(s.extra[j], nil, lemos(dep), params.RegisterTx, s.profile(s.extra[j], true), 200000))
 			reg[j] = 1
 			*desc = append(*desc, fmt.Sprintf("reg(%s,%d)", s.extra[j].name, dep))
@@ -246,7 +255,7 @@ func (s *nodeSys) randomTxs(rng *rand.Rand, n int, reg []int, desc *[]string) ty
 				continue
 			}
 			moved[a], moved[b] = true, true
-			amt := int64(200 * (1 + rng.Intn(2)))
+			amt := int64(200*(1+rng.Intn(2))) * s.scale
 			txs = append(txs, s.tx(a, &b.addr, lemos(amt), params.OrdinaryTx, nil, 30000))
 			*desc = append(*desc, fmt.Sprintf("xfer(%s,%s,%d)", a.name, b.name, amt))
 		}
@@ -298,7 +307,8 @@ func driveNode(args []string) error {
 		g := s.builder.Genesis
 		s.blocks = map[int]*types.Block{0: g}
 		step := 0
-		fl := engine.Fields{"nc": len(s.cands), "k": nodeK, "nd": nodeDeputies, "rk": s.rk, "term": int(params.TermDuration),
+		s.scale = []int64{1, 33, 65, 16385}[rng.Intn(4)]
+		fl := engine.Fields{"nc": len(s.cands), "k": nodeK, "nd": nodeDeputies, "rk": s.rk, "term": int(params.TermDuration), "scale": s.scale,
 			"acc": s.accView(s.builder, g.Hash()), "top": s.topView(s.builder, g.Hash()), "nut_top": s.topView(s.nut, g.Hash()), "err": ""}
 		if err := emit("reset", h, step, fl); err != nil {
 			return err
@@ -317,11 +327,11 @@ func driveNode(args []string) error {
 			case p.height == 1: // funding
 				for _, c := range s.extra {
 					a := c.addr
-					txs = append(txs, s.tx(s.founder, &a, lemos(int64(500+100*rng.Intn(6))), params.OrdinaryTx, nil, 30000))
+					txs = append(txs, s.tx(s.founder, &a, lemos(int64(550+100*rng.Intn(6))*s.scale), params.OrdinaryTx, nil, 30000))
 				}
 				for _, v := range s.voters {
 					a := v.addr
-					txs = append(txs, s.tx(s.founder, &a, lemos(int64(250+200*rng.Intn(5))), params.OrdinaryTx, nil, 30000))
+					txs = append(txs, s.tx(s.founder, &a, lemos(int64(250+200*rng.Intn(5))*s.scale), params.OrdinaryTx, nil, 30000))
 				}
 				desc = append(desc, "fund")
 			case p.id == 6:
